@@ -270,7 +270,20 @@ func (h *Hub) run() {
 					go replyOfflineTopicGetSub(msg.sess, msg)
 				}
 			} else if msg.Set != nil {
-				go replyOfflineTopicSetSub(msg.sess, msg)
+				// A session which is not attached to the topic is updating its own subscription.
+				// If the topic is loaded it must process the update itself, otherwise its cached
+				// state diverges from the database and nobody is notified of the change.
+				if t := h.topicGet(msg.RcptTo); t != nil && !t.isProxy && !types.IsChannel(msg.Original) &&
+					(msg.Set.Sub == nil || msg.Set.Sub.User == "" || msg.Set.Sub.User == msg.AsUser) {
+					select {
+					case t.meta <- msg:
+					default:
+						msg.sess.queueOut(ErrServiceUnavailableReply(msg, msg.Timestamp))
+						logs.Err.Println("hub.meta: topic's meta queue full", t.name)
+					}
+				} else {
+					go replyOfflineTopicSetSub(msg.sess, msg)
+				}
 			}
 
 		case status := <-h.userStatus:
